@@ -194,10 +194,20 @@ def _missing_only_delegated(a):
     return a["backend"] == "lmdb" and a["formula"] == "C02_Complete_OnlyDelegatedMissing"
 
 
+def _sql_single_limit_applied(a, max_limit=3):
+    """the SQL statement carries one LIMIT for the OR of all filters: the last filter's, capped at max_limit"""
+    fs = a["line"]["fs"]
+    last = fs[-1].get("limit") if fs else None
+    return max_limit if last is None else min(last, max_limit)
+
+
 def _sql_one_limit(a):
     fs = a["line"]["fs"]
-    return (a["backend"] == "sql" and a["formula"] == "C12_Limit" and len(fs) >= 2
-            and len({f.get("limit") for f in fs}) > 1)
+    if not (a["backend"] == "sql" and a["formula"] in ("C12_Limit", "C02_Complete") and len(fs) >= 2):
+        return False
+    # either the limits differ (a filter is over-served / truncated by another filter's limit) or the union was cut
+    # at exactly the single LIMIT
+    return len({f.get("limit") for f in fs}) > 1 or len(a["line"]["res"]) == _sql_single_limit_applied(a)
 
 
 def _multi_key(f):
@@ -217,6 +227,7 @@ def _lmdb_multivalue(a):
 
 MATCHERS = {
     "C02": {"lmdb-authors-ignores-delegation": _missing_only_delegated,
+            "sql-one-limit-for-all-filters": lambda a: a.get("limited") and _sql_one_limit(a),
             "sql-nul-in-tag-value": lambda a: (a["backend"] == "sql" and a["formula"] == "C02_Complete" and a["palette"] == "nul"
                                                and any(f.get("tags") for f in a["line"]["fs"]))},
     "C12": {"lmdb-authors-ignores-delegation": lambda a: a["backend"] == "lmdb" and a["formula"] == "C12_Limit_OnlyDelegatedMissing",
@@ -233,22 +244,34 @@ def _store_before(tr, lineno):
 
 
 def run(prop, tier, seed, backends=BACKENDS, only_universe=None):
+    out = _run(prop, tier, seed, backends, limited=(prop == "C12"))
+    if prop == "C02":
+        # "when under its limit": the same formulas on answers to filters that carry explicit limits, max_limit = 3
+        from ..report import merge
+
+        out = merge([out, _run(prop, tier, seed, backends, limited=True)])
+    return out
+
+
+def _run(prop, tier, seed, backends, limited):
     out = Outcome(prop, tier, seed, "exploration" if prop == "C01" else "model_checking")
     for key, fn in MATCHERS.get(prop, {}).items():
         out.add_matcher(key, fn)
     rnd = random.Random(seed)
     own = {"C01": ("C01_", "Garbage"), "C02": ("C02_",), "C12": ("C12_",)}[prop]
-    if prop == "C12":
+    if limited:
         max_limit = 3
         limits = (None, 0, 1, 2, 3, 4, 1000000000)
         config = {"max_limit": max_limit}
         filters = grammar(tier, rnd, limits=limits, max_fields=1 if tier == "quick" else 2)
+        if prop == "C02":
+            filters = filters[::2] if tier == "quick" else filters
     else:
         max_limit = 6000
         config = {}
         filters = grammar(tier, rnd)
     import os
-    palettes = os.environ["VERIF_PALETTES"].split(",") if os.environ.get("VERIF_PALETTES") else (["plain", "quotes"] if tier == "quick" else ["plain", "quotes", "py", "unicode", "nul"]) if prop == "C02" else ["plain"] if prop != "C01" else (["plain", "quotes", "sql", "py", "nul", "unicode"] if tier == "thorough" else ["plain", "quotes", "py", "nul"])
+    palettes = os.environ["VERIF_PALETTES"].split(",") if os.environ.get("VERIF_PALETTES") else ["plain"] if limited else (["plain", "quotes"] if tier == "quick" else ["plain", "quotes", "py", "unicode", "nul"]) if prop == "C02" else ["plain"] if prop != "C01" else (["plain", "quotes", "sql", "py", "nul", "unicode"] if tier == "thorough" else ["plain", "quotes", "py", "nul"])
     reqs = [[f] for f in filters] + multi_filter_reqs(filters, rnd, 300 if tier == "quick" else 3000)
     histories = HISTORIES if tier == "thorough" else HISTORIES[:3]
     scripts = build_scripts(histories, reqs)
@@ -292,7 +315,8 @@ def run(prop, tier, seed, backends=BACKENDS, only_universe=None):
                     continue
                 ln = tr[b[1] - 1]
                 store = _store_before(tr, b[1])
-                attrs = {"backend": backend, "formula": b[0], "line": _pub(ln), "uni": uni, "store": store, "palette": js["palette"]}
+                attrs = {"backend": backend, "formula": b[0], "line": _pub(ln), "uni": uni, "store": store, "palette": js["palette"],
+                         "limited": limited}
                 what = "%s on %s (palette %s): %s violated by answer %s to filters %s%s over store %s" % (
                     prop, backend, js["palette"], b[0], ln["res"], ln["fs"],
                     " (sent as %r)" % (ln["_conc"],) if ln.get("_raw") else "", sorted(store))
@@ -307,7 +331,7 @@ def run(prop, tier, seed, backends=BACKENDS, only_universe=None):
                        "histories of a 12-event universe (id prefixes ff/00, equal timestamps, tag values that are prefixes of one "
                        "another, a delegated, a replaced and a deleted event), sent through storage.subscribe on both backends%s; "
                        "a case is (backend, filter list, store); non-trivial = the answer is not empty"
-                       % (", x limits %s with max_limit=%d" % (list(limits), max_limit) if prop == "C12" else "",
+                       % (", x limits %s with max_limit=%d" % (list(limits), max_limit) if limited else "",
                           len(histories), ", under palettes %s" % palettes if prop == "C01" else ""))
     out.cov["samples"] = samples or [{"note": "no non-empty answer sampled"}]
     out.notes["violations_of_other_properties_seen"] = other
